@@ -83,4 +83,21 @@ theorem quadForm_eq {d} (M : Mat ℝ d d) (v : Vec ℝ d) :
     quadForm M v = v ⬝ᵥ (Matrix.mulVec (Matrix.of M) v) := by
   simp [quadForm, vsum_eq_sum, dotProduct, Matrix.mulVec]
 
+/-- spectral quadratic form: `xᵀ (V diag(m) Vᵀ) x = Σ_i m_i (Σ_a V_ai x_a)²` -/
+theorem quadForm_spectral {d} (V : Mat ℝ d d) (m : Vec ℝ d) (x : Vec ℝ d) :
+    quadForm (fun a b => vsum fun i => V a i * m i * V b i) x = ∑ i, m i * (∑ a, V a i * x a) ^ 2 := by
+  have inner : ∀ a, (∑ b, (∑ i, V a i * m i * V b i) * x b) = ∑ i, V a i * m i * (∑ b, V b i * x b) := by
+    intro a
+    simp only [Finset.sum_mul, Finset.mul_sum]
+    rw [Finset.sum_comm]
+    apply Finset.sum_congr rfl; intro i _; apply Finset.sum_congr rfl; intro b _; ring
+  simp only [quadForm, vsum_eq_sum, inner]
+  simp only [Finset.mul_sum]
+  rw [Finset.sum_comm]
+  apply Finset.sum_congr rfl; intro i _
+  rw [pow_two, Finset.sum_mul_sum, Finset.mul_sum]
+  apply Finset.sum_congr rfl; intro a _
+  rw [Finset.mul_sum]
+  apply Finset.sum_congr rfl; intro b _; ring
+
 end ML
